@@ -997,6 +997,25 @@ func dumpGraph(d *linker.VerifC10Dump, minify bool) (string, string) {
 		var parts, names []string
 		seenName := map[uint32]bool{}
 		for _, p := range f.Parts {
+			if fi == 0 && !p.IsLive {
+				// dead parts of the runtime file (the bulk of every dump) are left out: they depend on
+				// and use only the runtime itself, so they contribute no cross-file dependency, use
+				// or declaration that anything live refers to
+				crossFile := false
+				for _, dd := range p.Deps {
+					if dd != 0 {
+						crossFile = true
+					}
+				}
+				for _, u := range p.Uses {
+					if u[0] != 0 {
+						crossFile = true
+					}
+				}
+				if !crossFile {
+					continue
+				}
+			}
 			var uses [][2]uint32
 			for _, u := range p.Uses {
 				sym := d.Files[u[0]].Symbols[u[1]]
@@ -1747,13 +1766,30 @@ func runC10(seed uint64, n int, tier string, outDir string) []*Stats {
 	stB.Finish("distinct input AND at least one set bit / one renamed or multi-character name")
 
 	stS := NewStats("c10-split", seed)
-	var fullItems, dumpItems []string
+	var fullItems []string
 	var pend []*pendingCase
 	var jobs []job
 
+	// wall-clock budget for generating and building cases (thorough tier): when it is used up no
+	// further case is started; planned and run counts go to the stats
+	budget := time.Duration(0)
+	if tier == "thorough" {
+		budget = 150 * time.Second
+		if v := os.Getenv("C10_BUDGET_S"); v != "" {
+			var sec int
+			if _, err := fmt.Sscanf(v, "%d", &sec); err == nil {
+				budget = time.Duration(sec) * time.Second
+			}
+		}
+	}
+	over := func() bool { return budget > 0 && time.Since(t0) > budget }
+	planned, run := map[string]int{}, map[string]int{}
+	plan := func(fam string, k int) { planned[fam] += k }
 	caseNo := 0
+	curFam := ""
 	handle := func(g *graphCase, cfg buildCfg, full bool, oracle bool) {
 		caseNo++
+		run[curFam]++
 		root := filepath.Join(tmp, fmt.Sprintf("c%d", caseNo))
 		os.MkdirAll(filepath.Join(root, "src"), 0o755)
 		os.WriteFile(filepath.Join(root, "package.json"), []byte(`{"type":"module"}`), 0o644)
@@ -1816,8 +1852,7 @@ func runC10(seed uint64, n int, tier string, outDir string) []*Stats {
 		if why != "" {
 			stS.Note("outside-model: "+strings.SplitN(why, " ", 2)[0], g.desc, false)
 		} else {
-			fullItems = append(fullItems, fmt.Sprintf("(%s,\n  %s)", key, obs))
-			dumpItems = append(dumpItems, fmt.Sprintf("(%s,\n  %s)", key, dumpChunks(dump)))
+			fullItems = append(fullItems, fmt.Sprintf("(%s,\n  %s,\n  %s)", key, obs, dumpChunks(dump)))
 			// the linker's chunks and the emitted files must be the same chunks
 			if len(dump.Chunks) != len(b.chunks) {
 				stS.Fail("the linker computed other chunks than api.Build emitted", g.describe(cfg, true), fmt.Sprintf("%d chunks in the linker, %d outputs", len(dump.Chunks), len(b.chunks)), "same chunks")
@@ -1856,7 +1891,9 @@ func runC10(seed uint64, n int, tier string, outDir string) []*Stats {
 
 	// (1) rich random graphs: full comparison + oracle
 	nRich := n
-	for i := 0; i < nRich; i++ {
+	curFam = "rich"
+	plan(curFam, nRich)
+	for i := 0; i < nRich && !over(); i++ {
 		k := 2 + r.Intn(2)
 		if r.Chance(8) {
 			k = 4
@@ -1878,7 +1915,9 @@ func runC10(seed uint64, n int, tier string, outDir string) []*Stats {
 	if tier == "thorough" {
 		nDist = n / 2
 	}
-	for i := 0; i < nDist; i++ {
+	curFam = "distance"
+	plan(curFam, nDist)
+	for i := 0; i < nDist && !over(); i++ {
 		handle(genDistance(r), buildCfg{MinifyIdent: i%4 == 3}, true, i%3 == 0)
 	}
 	// (1e) replay of the witness of Properties.chunk_order_respects_evaluation_refuted: e0 imports a
@@ -1896,7 +1935,9 @@ func runC10(seed uint64, n int, tier string, outDir string) []*Stats {
 		handle(g, buildCfg{}, true, true)
 	}
 	// (1f) captured namespace objects fed by export-star chains ending in a re-exported import
-	for i := 0; i < n/4+6; i++ {
+	curFam = "ns-star"
+	plan(curFam, n/4+6)
+	for i := 0; i < n/4+6 && !over(); i++ {
 		cfg := buildCfg{}
 		if i%3 == 2 {
 			cfg = randCfg(r)
@@ -1904,12 +1945,16 @@ func runC10(seed uint64, n int, tier string, outDir string) []*Stats {
 		handle(genNsStar(r), cfg, true, true)
 	}
 	// (1d) colliding top-level names in one shared chunk (identifiers not minified)
-	for i := 0; i < n/3+8; i++ {
+	curFam = "names"
+	plan(curFam, n/3+8)
+	for i := 0; i < n/3+8 && !over(); i++ {
 		handle(genNames(r), buildCfg{MinifySyntax: i%3 == 1, MinifyWS: i%3 == 1}, true, i%2 == 0)
 	}
 	// (1c) entry points re-exporting bindings that live in shared chunks
 	nRe := n/2 + 10
-	for i := 0; i < nRe; i++ {
+	curFam = "reexport"
+	plan(curFam, nRe)
+	for i := 0; i < nRe && !over(); i++ {
 		cfg := buildCfg{}
 		if i%2 == 1 {
 			cfg = randCfg(r)
@@ -1971,7 +2016,22 @@ func runC10(seed uint64, n int, tier string, outDir string) []*Stats {
 			pats = append(pats, pat{k, nm, cols})
 		}
 	}
+	if tier == "thorough" {
+		// the three seeds of a thorough run (s, s+1, s+2) each take one third of the enumeration
+		var mine []pat
+		for pi, p := range pats {
+			if pi%3 == int(seed%3) {
+				mine = append(mine, p)
+			}
+		}
+		pats = mine
+	}
+	curFam = "incidence"
+	plan(curFam, len(pats))
 	for pi, p := range pats {
+		if over() {
+			break
+		}
 		inc := make([][]bool, p.k)
 		for a := range inc {
 			inc[a] = make([]bool, p.n)
@@ -1992,7 +2052,6 @@ func runC10(seed uint64, n int, tier string, outDir string) []*Stats {
 		handle(g, buildCfg{}, true, true)
 	}
 	fullItems = fullItems[:nFull]
-	dumpItems = dumpItems[:nFull]
 
 	// (3) run Node once for all jobs
 	tBuild := time.Since(t0)
@@ -2007,6 +2066,9 @@ func runC10(seed uint64, n int, tier string, outDir string) []*Stats {
 			}
 		}
 	}
+	stS.Extra["planned"] = planned
+	stS.Extra["run"] = run
+	stS.Extra["budget_seconds"] = budget.Seconds()
 	stS.Extra["node_jobs"] = len(jobs)
 	stS.Extra["build_seconds"] = tBuild.Seconds()
 	stC := NewStats("c10-css", seed)
@@ -2016,8 +2078,9 @@ func runC10(seed uint64, n int, tier string, outDir string) []*Stats {
 	}
 	cssCases(r, nCSS, tmp, stC, cf)
 	stC.Finish("distinct (graph, CSS chunks) AND some CSS file shared between entry points")
-	cf.AddCases("split", "graph_z * list obs_z", "check_split", fullItems)
-	cf.AddCases("dump", "graph_z * list dchunk_z", "check_dump", dumpItems)
+	// one family: the model is evaluated once per case and compared with the emitted chunks and
+	// with the linker's own chunk data
+	cf.AddCases("split", "graph_z * list obs_z * list dchunk_z", "check_full", fullItems)
 	stS.Finish("distinct (graph, observed chunks) AND at least one shared chunk")
 
 	if err := os.WriteFile(filepath.Join(outDir, "c10_cases.v"), []byte(cf.String()), 0o644); err != nil {
